@@ -141,6 +141,9 @@ func run(c px.Context, cfg *lib.Config, res *lib.Result) {
 		nRandom, coqN, monoBudget = 1200, 12000, 600000
 	}
 	u := lat.NewUniverse(rng, nRandom, 1)
+	// Unit is "two-way assignable by definition" (every type accepts it and it accepts every type), so no
+	// order law can hold through it (Integer >= Unit >= String): types that contain Unit are left out.
+	u.Drop(func(i int) bool { return lat.Contains(u.Dec[i], "Unit") })
 	u.FillAsg()
 	for _, cr := range u.Crashes {
 		res.Violate(cr)
